@@ -210,6 +210,11 @@ fn ambiguous_in(cap: &Option<Capture>) -> Vec<String> {
 fn synth_case(case: u64, case_seed: u64, k: u64) {
     let mut rng = Rng::new(case_seed);
     let spec = vhc::synth::gen_spec(&mut rng);
+    synth_spec(case, case_seed, k, spec, rng);
+}
+
+/// A given spec (generated, or shrunk by the check): untransformed run + dump, then k transformed runs.
+fn synth_spec(case: u64, case_seed: u64, k: u64, spec: vhc::synth::Spec, mut rng: Rng) {
     let crates: HashMap<String, Crate> = vhc::synth::lower(&spec).into_iter().collect();
     let order = RefCell::new(vec![]);
     let (res, cap) = verif_run("app", |n| {
@@ -292,6 +297,11 @@ fn main() {
         // replay of one transform case: <fixture> <case_seed> <identity 0|1>
         Some("synth") => synth(num(2, 1), num(3, 10), num(4, 3)),
         Some("synth-one") => synth_case(0, num(2, 0), num(3, 3)),
+        // a spec from a JSON file (shrinking / replay of a shrunk case): <file> <k> <seed for the transformations>
+        Some("synth-spec") => {
+            let spec: vhc::synth::Spec = serde_json::from_slice(&std::fs::read(&args[2]).expect("spec file")).expect("spec JSON");
+            synth_spec(0, num(4, 1), num(3, 3), spec, Rng::new(num(4, 1)));
+        }
         Some("transform-one") => transform_case(&fx, 0, &args[2], num(3, 0), num(4, 0) == 1),
         Some("edges") => edges(&fx, num(2, 1), num(3, 24)),
         _ => {
